@@ -89,14 +89,17 @@ def shrink_failure(case, run_impl, oracle, shrink, budget=400):
     improved = True
     while improved and budget > 0:
         improved = False
-        for cand in shrink(case):
-            budget -= 1
-            if budget <= 0:
-                break
-            w, o = fails(cand)
-            if w:
-                case, why, obs, improved = cand, w, o, True
-                break
+        try:
+            for cand in shrink(case):
+                budget -= 1
+                if budget <= 0:
+                    break
+                w, o = fails(cand)
+                if w:
+                    case, why, obs, improved = cand, w, o, True
+                    break
+        except Exception:       # a shrinker that cannot handle a case must never cost the verdict: keep what we have
+            break
     return case, why, obs
 
 
